@@ -172,7 +172,7 @@ func c09Sched(nChecks int) func(c *sim.Case) {
 		}
 		expiredCookie := false
 		for _, sc := range lr.SetCookies() {
-			if sc.Name == w.CookieName() && (sc.Attrs["max-age"] == "0" || strings.HasPrefix(sc.Attrs["max-age"], "-")) {
+			if sc.Name == w.CookieName() && sc.Expired() {
 				expiredCookie = true
 			}
 		}
@@ -290,7 +290,7 @@ func (m *c09Mon) after(h *H, s *step) {
 			}
 			expired := false
 			for _, sc := range s.R.SetCookies() {
-				if sc.Name == w.CookieName() && (sc.Attrs["max-age"] == "0" || strings.HasPrefix(sc.Attrs["max-age"], "-")) {
+				if sc.Name == w.CookieName() && sc.Expired() {
 					expired = true
 				}
 			}
